@@ -86,6 +86,8 @@ type Node struct {
 	Tables  []TableDef
 	hits    map[string]int
 	closed  bool
+	// closeFn replaces DB.Close for nodes that are whole servers
+	closeFn func()
 
 	pendingMemOK int
 }
@@ -413,7 +415,11 @@ func (n *Node) Close() {
 		return
 	}
 	n.closed = true
-	n.DB.Close()
+	if n.closeFn != nil {
+		n.closeFn()
+	} else {
+		n.DB.Close()
+	}
 	synctest.Wait()
 }
 
@@ -423,6 +429,10 @@ func (n *Node) Abandon() {
 		return
 	}
 	n.closed = true
+	if n.closeFn != nil {
+		go n.closeFn()
+		return
+	}
 	go n.DB.Close()
 }
 
